@@ -571,6 +571,11 @@ pub fn gen(prop: &str, tier: &str, seed: u64) -> Vec<String> {
                 for op in ["comps", "back", "parent", "fname", "norm", "pop", "valid", "hash", "anc"] {
                     fam_unary(op, win, &small, &mut out);
                 }
+                // the full structured domain (prefix look-alikes of every length) through the parsers
+                let full = if win { dom_win(tier, seed) } else { dom_unix(tier, seed) };
+                for op in ["comps", "back", "parent", "norm"] {
+                    fam_unary(op, win, &full, &mut out);
+                }
                 let a: Vec<Vec<u8>> = dom_args(win, tier, seed).into_iter().take(40).collect();
                 for op in ["push", "pushc", "setfn", "setext", "strip"] {
                     fam_cross(op, win, &d, &a, &mut out);
